@@ -47,16 +47,17 @@ func init() {
 
 func bound(tier string) string {
 	if tier == engine.Thorough {
-		return "no redefinition: 1 class x full slot alphabet (34 option pairs); all 2-class DAGs x full alphabet; all 10 3-class DAGs x 13-pair curated alphabet; " +
-			"all 160 4-class DAGs x 5-pair alphabet; initform nil: 1-3 classes x 5-pair alphabet; 10 five-class chain/diamond shapes x 3-pair alphabet; every permutation of the defclass forms each (up to 120). " +
-			"Redefinition of any one class (initform/slot added, slots removed, initarg instead of initform, slot u added, superclasses reversed/dropped/added) " +
-			"at every later point of every order: all 2- and 3-class DAGs x 5-pair alphabet x warm/cold; 4-class DAGs with <= 2 direct superclasses x slot s with initform (cold). " +
-			"All subsets of valid initargs. CUT relative to the design: 5 classes restricted to 10 shapes; 4-class redefinition restricted to one slot alphabet entry."
+		return "no redefinition: 1 class and both 2-class DAGs x full slot alphabet (32 option pairs for slots s,u); all 10 3-class DAGs x 13-pair curated alphabet; " +
+			"all 160 4-class DAGs x 5-pair alphabet; initform nil: 1-3 classes x 5-pair alphabet; 10 five-class chain/diamond shapes x 3-pair alphabet; " +
+			"every permutation of the defclass forms each (up to 120). " +
+			"Redefinition of any one class (slot s given a new initform, all slots removed, initarg instead of initform, slot u added, superclasses reversed / first dropped / one added) " +
+			"at every later point of every order: all 2- and 3-class DAGs x 5-pair alphabet x warm/cold dispatch cache; 4-class DAGs with <= 2 direct superclasses, slot s with initform in every class (cold). " +
+			"All subsets of valid initargs (a, b, shared k). CUT relative to the design: 5 classes restricted to 10 shapes; 4-class redefinition restricted to one slot alphabet entry and <= 2 superclasses."
 	}
-	return "no redefinition: 1 class x full slot alphabet (34 option pairs); both 2-class DAGs x 13-pair curated alphabet; all 10 3-class DAGs x 9-pair alphabet; " +
-		"all 160 4-class DAGs with slot s :initform in every class; initform nil: 1-2 classes x 5-pair, 3 classes x 3-pair alphabet; every permutation of the " +
-		"defclass forms each. Redefinition of any one class (8 kinds) at every later point of every order: 2-class DAGs x 3-pair alphabet, 3-class DAGs x 2-pair alphabet, warm and cold. " +
-		"All subsets of valid initargs. CUT relative to the design: slot alphabets smaller than in thorough; no 5-class cases."
+	return "no redefinition: 1 class x full slot alphabet (32 option pairs for slots s,u); both 2-class DAGs x 13-pair curated alphabet; all 10 3-class DAGs x 8-pair alphabet; " +
+		"all 160 4-class DAGs with slot s :initform in every class; initform nil: 1-2 classes x 5-pair, 3 classes x 3-pair alphabet; every permutation of the defclass forms each. " +
+		"Redefinition of any one class (7 kinds) at every later point of every order: 2-class DAGs x 3-pair alphabet, 3-class DAGs x 2-pair alphabet, warm and cold dispatch cache. " +
+		"All subsets of valid initargs. CUT relative to the design: slot alphabets smaller than in thorough; 4 classes without slot variation; no 5-class cases; no 4-class redefinition."
 }
 
 // ---------------------------------------------------------------- running one history
